@@ -12,7 +12,9 @@ THEOREMS = ["C18_builtin", "C18_earth_object", "C18_set_ellipsoid", "C18_on_elli
             "C18_linear_velocity", "C18_rm_equator", "C18_rm_pole", "C18_rm_monotone",
             "C18_distance_symmetric", "C18_distance_symmetric_angle", "C18_distance_coincident",
             "C18_distance_equator", "C18_distance_value", "C18_parallax_correction_closed_form",
-            "C18_parallax_declination_bound"]
+            "C18_parallax_declination_bound", "C18_central_angle", "C18_distance_great_circle",
+            "C18_distance_great_circle_angle", "C18_builtin_flattening", "C18_parallax_displacement_bound", "C18_rho_bound",
+            "C18_parallax_dalpha_tan"]
 PROOF_TIMEOUT = {"quick": 1500, "thorough": 3000}
 EXHAUSTIVE = False
 MANIFEST = {
@@ -26,8 +28,11 @@ MANIFEST = {
             "distance (four floats or four Angles) symmetric / (0,0) for coincident points / a|dlambda| on the equator; closed forms of "
             "Earth.distance and Earth.parallax_correction (transcriptions that pin the code); |sin dec' - sin dec| <= 2q/(1-q), "
             "q = rho sin(8.794'')/distance (vanishes with 1/distance; about twice the horizontal parallax, weaker than the property's bound). "
+            "Great circle: a sigma (1-2f) <= distance <= a sigma (1+f) for every non-coincident, non-antipodal pair (sigma = central angle, haversine), "
+            "hence within 0.6 % of the great circle of mean radius (2a+b)/3 for f <= 0.00359 (IAU76, WGS84). Parallax_correction: angle between geocentric "
+            "and returned direction <= asin(rho sin(8.794'')/distance) <= asin(C/distance), C = (1+|h|/a) sin(8.794''), for distance > C (rho <= 1+|h|/a proved). "
             "Binary64 incl. the poles: bit-exact correspondence model vs implementation every run + oracle. Searched, not proved: "
-            "meridian arc vs integral of rm, 0.6 % of great circle, the horizontal-parallax bound, parallax_ecliptical.",
+            "meridian arc vs integral of rm, parallax_ecliptical, exactly antipodal pairs, all rounding.",
     "technique": "symbolic evaluation (pyrun) of the generated model over Coq reals + real analysis (lra/nra/field, "
                  "Reals trigonometry: cos_atan, atan_tan, sin/cos monotonicity, Rpower) + bit-exact differential "
                  "correspondence + oracle search with independent closed forms, Simpson integration and vector parallax",
@@ -58,20 +63,23 @@ CLAUSES = {
     "distance closed form (pins the code): (0,0) if s = 0, ZeroDivisionError if c = 0, else Andoyer's formula with round(dist f^2, 0), every float input":
         "proved [ideal, C18_distance_value; the spec `andoyer` is a transcription of the code: it pins the code against change and carries the symmetry/coincident/equator theorems, it is no property by itself]",
     "distance along a meridian = integral of rm (1e-4)": "unproved (searched): needs a quantitative error analysis of Andoyer's first-order formula; Simpson integration of the implementation's rm, built-in ellipsoids 1e-4, user ellipsoids max(1e-4, 3 f^2)",
-    "distance within 0.6 % of the great-circle distance": "unproved (searched): trigonometric bound -2f..f on Andoyer's correction not formalised; searched against the sphere of mean radius (2a+b)/3 for the built-in ellipsoids incl. antipodal pairs",
+    "distance within 0.6 % of the great-circle distance":
+        "proved [ideal, C18_distance_great_circle(_angle) + C18_central_angle + C18_builtin_flattening: for every pair that is neither coincident nor exactly antipodal (s > 0, c > 0) and every a > 0, f >= 0: a sigma (1-2f) <= D <= a sigma (1+f), sigma = central angle (haversine formula proved); for f <= 0.00359 (IAU76, WGS84) |D - R sigma| <= 0.006 R sigma with the mean radius R = (2a+b)/3. With R = a the clause is false (2f = 0.67 % along a meridian at the equator). Exactly antipodal pairs and binary64 rounding: searched]",
     "parallax_correction closed form (after repairs 5494b49/2d034b9): delta_alpha = atan2(B, A), dec' = atan2(sin d - rho_sin k, hypot(A, B)), WGS84 observer":
         "proved [ideal, C18_parallax_correction_closed_form; closed form (pins the code): a transcription of the repaired code, no property by itself; Angle arguments, float distance != 0 and height, observer latitude with cos != 0; the final right_ascension + delta_alpha is left as the model's Angle.__add__]",
     "parallax correction in declination tends to 0 as distance grows: |sin dec' - sin dec| <= 2q/(1-q), q = rho sin(8.794'')/distance":
         "proved [spec function topo_dec, tied to the code by C18_parallax_correction_closed_form; every declination of the body and hour angle; 2q/(1-q) is about TWICE the horizontal parallax: weaker than the property's bound, it only shows the 1/distance decay]",
-    "parallax corrections stay below the horizontal parallax asin(rho sin 8.794''/distance); parallax_ecliptical; right-ascension correction":
-        "unproved (searched): both functions are compared with an independent vector computation (1e-9 rad) and with the bound asin(rho sin 8.794''/Delta), rho = geocentric distance of the observer (1 at sea level on the equator)",
+    "parallax_correction never displaces by more than the horizontal parallax and tends to 0 with distance":
+        "proved [ideal, C18_parallax_displacement_bound, tied to the code by C18_parallax_correction_closed_form; measure: angle theta between the geocentric direction (ra, dec) and the returned direction (ra + delta_alpha, dec'); for distance > C = (1+|h|/a) sin 8.794'' (4.3e-5 AU): sin theta <= rho sin(8.794'')/distance <= C/distance and cos theta > 0, i.e. theta <= asin(rho sin pi/distance), rho <= 1+|h|/a the observer's geocentric distance (C18_rho_bound; rho = 1 only at sea level on the equator: the literal bound asin(sin pi/distance) is exceeded by the factor rho <= 1.0015 at 9000 m); every declination and hour angle; tan(delta_alpha) in Meeus' form: C18_parallax_dalpha_tan]",
+    "parallax_ecliptical: displacement bound and closed form":
+        "unproved (searched): compared with an independent vector computation (1e-9 rad), the bound asin(rho sin 8.794''/Delta) and the semidiameter formula",
     "binary64 rounding of all of the above": "unproved (searched); correspondence stage ties binary64 runs to the model text bit for bit",
 }
 
 
 def proof_files(tier):
     return ["C18_tac.v", "C18_spec.v", "C18_defs.v", "C18_bridge.v", "C18_rp.v", "C18_lv.v", "C18_rm.v",
-            "C18_dist_f.v", "C18_dist_a.v", "C18_dist.v", "C18_main.v", "C18_par.v", "C18_parbound.v", "C18.v"]
+            "C18_dist_f.v", "C18_dist_a.v", "C18_dist.v", "C18_main.v", "C18_par.v", "C18_parbound.v", "C18_gc.v", "C18_gcm.v", "C18_parvec.v", "C18_parm.v", "C18.v"]
 
 
 # ----------------------------------------------------------------------------- generators
